@@ -23,7 +23,7 @@ func memoConcCfg(builders, prekeys string) string {
 
 // C06: a WAF is safe to share: concurrent transactions are race-free and independent.
 func C06(run *vf.Run) {
-	run.Rule = "MemoConc.tla (PlusCal): the Do / Release protocol of the process-wide pattern cache with one label per critical section of internal/memoize/sync.go (lock-free fast path, entry mutex, singleflight leader / followers, post-registration, Release marking and deleting); TLC explores every interleaving of 2 (thorough: 3) builders asking for 2 keys while a closer releases the WAF that owns the pre-cached entries, checking deadlock freedom, NoDeletedInCache, DoReturnsOwnKey, ValueEntryOwnedOrGone, NoLeak. The real library is then stressed under the Go race detector (-race -tags verif): G goroutines run generated transactions on one shared WAF (rx / pm / chains / ctl run-time exclusions / setvar / capture / shared serial audit log) while B goroutines build, probe and close WAFs sharing cached patterns, with runtime.Gosched injected at the verif yield points of memoize.Do / Release; every transaction's outcome is compared with the same request run alone, the quiescent cache is checked against the model's invariants, the audit log must hold one JSON document per transaction; two transactions in flight derive independent debug loggers from the WAF's logger whatever context it already carries. Non-trivial = a concurrently executed transaction"
+	run.Rule = "MemoConc.tla (PlusCal): the Do / Release protocol of the process-wide pattern cache with one label per critical section of internal/memoize/sync.go (lock-free fast path, entry mutex, singleflight leader / followers, post-registration, Release marking and deleting); TLC explores every interleaving of 2 (thorough: 3) builders asking for 2 keys while a closer releases the WAF that owns the pre-cached entries, checking deadlock freedom, NoDeletedInCache, DoReturnsOwnKey, ValueEntryOwnedOrGone, NoLeak. The real library is then stressed under the Go race detector (-race -tags verif): G goroutines run generated transactions on one shared WAF (rx / pm / chains / ctl run-time exclusions / setvar / capture / shared serial audit log) while B goroutines build, probe and close WAFs sharing cached patterns, with runtime.Gosched injected at the verif yield points of memoize.Do / Release; every transaction's outcome is compared with the same request run alone, the quiescent cache is checked against the model's invariants, the audit log must hold one JSON document per transaction; WAFs built at the same moment over never-seen transformation chains keep the table numbering the chains sound (TfTable.tla: all interleavings of 3 builders in TLC, the invariant TableSound evaluated on the real table after every racing round, a behavioural probe per built WAF); two transactions in flight derive independent debug loggers from the WAF's logger whatever context it already carries. Non-trivial = a concurrently executed transaction"
 	run.Assume("the Go scheduler is sampled, not enumerated: interleavings inside the stress are those the race detector run produces with yield injection; the memoize protocol itself is explored exhaustively at the grain of its critical sections in TLA+")
 	builders := vf.Pick(run, "{1, 2}", "{1, 2, 3}")
 	for _, pre := range []string{`{"k1"}`, `{"k1", "k2"}`, `{}`} {
@@ -47,6 +47,26 @@ func C06(run *vf.Run) {
 			return
 		}
 	}
+	// the table numbering transformation chains: the code's design (one critical section) is sound for every
+	// interleaving of 3 builders; the two-step design must be refuted (self-test of the model)
+	for _, design := range []string{"mutex", "rwlock"} {
+		res, err := vf.RunTLC(vf.TLCOpts{Module: "TfTable", CfgText: fmt.Sprintf("SPECIFICATION Spec\nCONSTANTS\n  Builders = {1, 2, 3}\n  Names = {\"x\", \"y\", \"z\"}\n  Design = \"%s\"\n  MaxRegs = %d\nINVARIANT TableSound\nCHECK_DEADLOCK FALSE\n", design, vf.Pick(run, 2, 3)),
+			Workers: 8, Timeout: 10 * time.Minute})
+		if err != nil {
+			run.Inconclusive("TfTable: %v", err)
+			return
+		}
+		run.AddTLC(res)
+		run.Logf("TfTable.tla design=%s: %s", design, res.Describe())
+		if design == "mutex" && (res.Violated != "" || !res.OK()) {
+			run.Inconclusive("TfTable.tla: the design of the pinned code does not satisfy TableSound in TLC: %s\n%s", res.Describe(), res.ErrorText)
+			return
+		}
+		if design == "rwlock" && res.Violated != "TableSound" {
+			run.Inconclusive("TfTable.tla design self-test: the two-step design was not refuted (%s)", res.Describe())
+			return
+		}
+	}
 	dir, _ := os.MkdirTemp("", "verif-c06bin-")
 	defer os.RemoveAll(dir)
 	bin := filepath.Join(dir, "c06stress")
@@ -61,7 +81,7 @@ func C06(run *vf.Run) {
 	dur := vf.Pick(run, "12s", "60s")
 	for r := 0; r < rounds; r++ {
 		seed := run.Seed*100 + int64(r)
-		c := exec.Command(bin, "-seed", fmt.Sprint(seed), "-d", dur, "-g", fmt.Sprint(6+2*r), "-b", "3", "-yield", fmt.Sprint(2+r))
+		c := exec.Command(bin, "-seed", fmt.Sprint(seed), "-d", dur, "-g", fmt.Sprint(6+2*r), "-b", "3", "-yield", fmt.Sprint(2+r), "-tfrounds", fmt.Sprint(vf.Pick(run, 500, 4000)))
 		var out, errb bytes.Buffer
 		c.Stdout = &out
 		c.Stderr = &errb
@@ -107,6 +127,10 @@ func C06(run *vf.Run) {
 		if num(sum["panics"]) > 0 || num(sum["waf_build_failures"]) > 0 {
 			run.Violate(vf.Violation{Signature: "conc:panic-or-construction-failure", What: fmt.Sprintf("panic or NewWAF failure under concurrency: %v %v", sum["first_build_failure"], sum["first_mismatch"]),
 				Replay: map[string]any{"family": "stress", "seed": seed, "summary": sum}})
+		}
+		if tp, _ := sum["tf_table_problems"].([]any); len(tp) > 0 {
+			run.Violate(vf.Violation{Signature: "conc:transformation-table", What: fmt.Sprintf("WAFs built at the same moment over never-seen transformation chains: the process-wide table numbering the chains violates TfTable!TableSound, or a rule read another chain's cached value: %v", tp[0]),
+				Replay: map[string]any{"family": "stress-tftable", "seed": seed, "problems": tp}})
 		}
 		if b, _ := sum["deadlock"].(bool); b {
 			run.Violate(vf.Violation{Signature: "conc:deadlock", What: "goroutines did not finish within 60 s after the stop signal", Replay: map[string]any{"family": "stress", "seed": seed}})
